@@ -454,10 +454,10 @@ func (r *foRun) oracleC04() {
 		var sw uint64
 
 		for _, l := range r.logs {
+			// the last time: a Get may legitimately start over (a SkipRead Get whose owner did not build) and
+			// wait again, for a later owner
 			if l.msg == "waiting for cache value" && l.task == o.task && l.seq > o.inv && l.seq < o.ret {
 				sw = l.seq
-
-				break
 			}
 		}
 
@@ -1104,6 +1104,98 @@ func (r *foRun) oracleC06() {
 
 			if dur(c.ttlNs) != r.updateTTL {
 				out.violate("C06.R2", "refresh-ttl", "stale value %v re-stored with TTL %v instead of UpdateTTL %v", t, dur(c.ttlNs), r.updateTTL)
+			}
+		}
+	}
+
+	// R5b: whatever else is going on, a SkipRead Get is never answered from the cache: the value it returns
+	// was built by an invocation that was still running, or started, after the Get was invoked - unless a build
+	// of the key failed during the Get (then the stale fallback is the documented answer).
+	for _, o := range r.ops {
+		if !o.op.SkipRead || !o.done || o.err != nil {
+			continue
+		}
+
+		t, ok := o.val.(Tok)
+		if !ok {
+			continue
+		}
+
+		failedMeanwhile, builtMeanwhile := false, false
+
+		for _, b := range r.builds {
+			if b.key != o.key {
+				continue
+			}
+
+			if b.fail && (!b.exited || b.exit > o.inv) && b.enter < o.ret {
+				failedMeanwhile = true
+			}
+
+			// still running, or its owner had not yet left Get (a synchronous owner holds the key lock until it
+			// returns: a Get arriving before that is its waiter)
+			if !b.fail && b.tok == t && (!b.exited || b.exit > o.inv || !b.op.done || b.op.ret > o.inv) {
+				builtMeanwhile = true
+			}
+		}
+
+		// a build whose result was stored only after the Get was invoked was still in progress then (its owner
+		// held the key lock until the store)
+		for _, c := range r.calls {
+			if c.kind == "write" && c.key == o.key && c.val == interface{}(t) && c.retSeq > o.inv && dur(c.ttlNs) != r.updateTTL {
+				builtMeanwhile = true
+			}
+		}
+
+		out.probe("skipread_result_provenance_checked")
+
+		if r.sc.DefaultBackend {
+			continue // no view on the stores
+		}
+
+		lockHeld := containsStr(o.locksAtInvoke, o.key)
+
+		// known finding: with SyncRead every Get takes the key lock, and a SkipRead Get that finds it held by a
+		// Get that is only doing its in-lock read is handed that Get's cache hit; nothing is rebuilt
+		syncReadHit := false
+
+		if r.sc.Cfg.SyncRead && !builtMeanwhile && !failedMeanwhile {
+			keyBuilt := false
+
+			// only when no build of the key has ever started: then no build owner (synchronous or background) can
+			// be holding the key lock, and the only holders are Gets doing their in-lock read
+			for _, b := range r.builds {
+				if b.key == o.key && b.enter < o.ret {
+					keyBuilt = true
+				}
+			}
+
+			for _, p := range r.ops {
+				if !keyBuilt && p != o && p.key == o.key && p.done && p.err == nil && len(p.builds) == 0 && !p.op.SkipRead &&
+					p.val == o.val && p.inv < o.ret && p.ret > o.inv {
+					syncReadHit = true
+
+					out.violate("C06.R5", "skipread-waiter-served-syncread-owners-cache-hit", "SyncRead: %s Get(%q) with SkipRead overlapped %s, which held the key lock for its in-lock read; it returned that Get's cache hit %v and nothing was rebuilt", o.id(), o.key, p.id(), t)
+
+					break
+				}
+			}
+		}
+
+		switch {
+		case builtMeanwhile || failedMeanwhile || syncReadHit:
+		case !lockHeld:
+			out.violate("C06.R5", "skipread-served-from-cache", "%s Get(%q) with SkipRead returned %v, a value that was built and stored before the Get was invoked (no build of the key failed meanwhile, no key lock was held): it was answered from the cache", o.id(), o.key, t)
+		default:
+			// The key lock was held when the Get was invoked: it is a waiter. Whom it waited for cannot be observed
+			// directly, but one case is unambiguous: a build of the key was running from before the invocation
+			// until after the return. The Get cannot see the cache (SkipRead), so it had to wait for that build.
+			for _, b := range r.builds {
+				if b.key == o.key && b.enter < o.inv && (!b.exited || b.exit > o.ret) && len(o.builds) == 0 {
+					out.violate("C06.R5", "skipread-did-not-wait-for-build-in-flight", "%s Get(%q) with SkipRead returned %v at seq %d while the build of %s (entered at seq %d before the Get was invoked) was still running: it was answered from the cache instead of waiting for the rebuilt value", o.id(), o.key, t, o.ret, b.op.id(), b.enter)
+
+					break
+				}
 			}
 		}
 	}
